@@ -498,6 +498,40 @@ theorem state_install_window_witness :
   simp only [List.mem_cons, List.not_mem_nil, or_false] at hc
   rcases hc with rfl | rfl <;> simp [obsMatches]
 
+/-- **While a node receives its state (PIBD), LMDB reads are still committed state.**  The system
+extended with the desegmenter's staging step (`PStep.stage`: `Desegmenter::apply_*_segments` /
+`finalize_bitmap` publish the MMR part of their work and drop the batch - no LMDB commit): in ANY
+run, the LMDB half of every observation - of a reader under `txhashset.read()` and of a lock-free
+reader: head, header head, block and header look-ups, the output_pos index - is the LMDB half of
+the state after exactly the ops that had committed; only the MMR half may run ahead of it (next
+theorem).  Harness tie: run `pibd` (head stays at genesis and names something stored, header view
+consistent, while the MMRs grow). -/
+theorem pibd_phase_db_reads_committed (s0 : Shared D M) (s : St D M) (log : List (Nat × Obs D M))
+    (h : PRun s0 s log) : ∀ k o, (k, o) ∈ log → ∃ c, s.hist.reverse[k]? = some c ∧ obsDb o = c.db :=
+  prun_db_committed s0 s log h
+
+/-- … and the MMR half does run ahead: a kernel-checked run in which a segment is staged (MMR part 5)
+and a reader under the read lock then observes LMDB part 0 with MMR part 5 - not a state of the
+history `[⟨0,0⟩]`; by design of the state sync (the body head moves only when
+`validate_complete_state` commits). -/
+theorem pibd_phase_mmr_runs_ahead :
+    ∃ (s : St Nat Nat) (log : List (Nat × Obs Nat Nat)), PRun ⟨0, 0⟩ s log ∧
+      log = [(0, .locked 0 5)] ∧ s.hist = [⟨0, 0⟩] ∧ ∀ c ∈ s.hist, ¬ obsMatches (.locked 0 5) c := by
+  let s0 : Shared Nat Nat := ⟨0, 0⟩
+  have r0 := PRun.nil (s0 := s0)
+  have r1 := PRun.silent r0 (PStep.base (CStep.wlock _ 2 rfl rfl))
+  have r2 := PRun.silent r1 (PStep.base (CStep.work _ 2 s0 s0 (fun x => { x with mmr := 5 }) rfl))
+  have r3 := PRun.silent r2 (PStep.stage _ 2 s0 ⟨0, 5⟩ rfl)
+  have r4 := PRun.silent r3 (PStep.base (CStep.rlock0 _ rfl))
+  have r5 := PRun.obs r4 (PStep.base (CStep.rread _ 1 rfl))
+  refine ⟨_, _, r5, rfl, rfl, ?_⟩
+  intro c hc
+  have hh : c = (⟨0, 0⟩ : Shared Nat Nat) := by
+    have : c ∈ [(⟨0, 0⟩ : Shared Nat Nat)] := hc
+    simpa using this
+  subst hh
+  simp [obsMatches]
+
 end
 
 /-! ## the open-transaction counter of the LMDB store (`enter_tx` / `TxCounter` / resize waiter) -/
